@@ -19,7 +19,7 @@ RULE = ("cases = operation histories over {append(n), insert(0,n), del first, de
         "normalisation {on, off}; each distinct reached state is probed with every present "
         "session mnemonic, case variants, absent keys, all ints in [-n-1, n] and slices through "
         "__contains__/__getitem__/__getattr__/get/__delitem__/__setitem__/__setattr__. "
-        "distinct = distinct (state, normalisation); non-trivial = state with >= 2 items")
+        "distinct = distinct (state, normalisation); non-trivial = state with >= 2 items Added later: curve samples in the snapshots, underscore-leading and other name shapes, letters whose upper / lower foldings disagree, numpy-integer and bool positions, slice deletion.")
 ASSUMPTIONS = [
     "the reference reads each item's session mnemonic through list.__getitem__ (C13 decides whether those names are right)",
     "probe keys that are attributes of the list type itself (append, index, ...) are outside the domain of attribute access",
